@@ -30,6 +30,10 @@ CLAIMED = {
         text="Lean theorems over Model.Online.runFinal (begin_transaction decision tree, _ProxyTransaction.__exit__, per-step block of run_migrations, autocommit_block) for every plan length, every failing migration and every failure position, all (transactional_ddl, transaction_per_migration, external) settings: single_txn, per_migration, recorded_exactly_completed, nontransactional, rows_at_boundary, never_names_failed. Compared with the real MigrationContext on SQLite file databases (pysqlite default and the BEGIN recipe) with exhaustive failure positions; the Lean checker judges the post-failure observation of the real code.",
         note="backend DDL modes are a model (pysqlite legacy and SQLite BEGIN recipe validated live; PostgreSQL/MSSQL/MySQL servers not); single_txn/per_migration carry the hypothesis 'no autocommit_block before the failure'; version statements are parameters read from the real HeadMaintainer (row algebra is C03).",
         technique=T_GENERIC),
+    "C05": dict(engine="rev", ref="6/C05",
+        text="C05.single: from rows that form an antichain, stamping a revision d replaces exactly the rows in d's lineage (ancestors or descendants through down-revisions and dependencies, selected as filter_for_lineage(include_dependencies=True) does) by d, leaves every other row untouched, every statement hits exactly one row, and the result is again an antichain - for every loaded history and all four classifications (no-op / downgrade / upgrade / new branch) of _stamp_revs with the StampStep decision logic; C05.base: stamping base deletes the selected rows one by one and ends empty. Several destinations ('heads', several ids; repaired in /repo by the F4 fix) are covered by correspondence with the real _stamp_revs + HeadMaintainer on SQLite and the Lean oracle stampOk.",
+        note="per-destination theorems; the multi-destination loop and target-string resolution are correspondence + oracle; --purge only empties the table first (run_migrations), exercised by correspondence.",
+        technique=T_GENERIC),
     "C06": dict(engine="diff", ref="6/C06",
         text="quiet_partial and converge_partial kernel-checked for all well-formed schemas of the property's class (any size, arbitrary type arguments and default texts) under every compare_type/compare_server_default setting, with the SchemaOk hypothesis (plain defaults, types that reflect by name); the F9 family, affinity-reflected types and two batch defects are Lean counterexamples + known findings replayed on the real code. The property itself (quiet, converge through rendered code executed on SQLite) is observed on the real code on every run.",
         note="Model.Diff.{ddlTy,reflTy,sqliteStore,createAll,reflect,apply} are tables/semantics of SQLAlchemy and SQLite validated against the live inspector and database on every run; as_diffs canonicaliser.",
